@@ -27,6 +27,7 @@ import (
 var rec = vk.NewRecorder("C02")
 
 func TestMain(m *testing.M) {
+	vk.Disturb = gen.Disturb
 	code := m.Run()
 	rec.Flush("all")
 	os.Exit(code)
